@@ -471,7 +471,7 @@ class ChargingNetwork(BaseSimObj):
 
         if linear:
             return np.abs(
-                self.constraint_matrix[constraint_indices] @ schedule_matrix
+                np.abs(self.constraint_matrix[constraint_indices]) @ schedule_matrix
             ).astype("complex")
         else:
             # build vector of phase angles on EVSE
